@@ -24,6 +24,7 @@ EXPLANATION = (
     "operator; Unit comparisons go through 1*unit quantities; compat.eq/zero_or_nan reduce with all(). Does not "
     "decide transitivity/trichotomy as laws, float ties or array semantics.")
 EXPLANATION += ' Also decided (rules added after the second round of seeded changes): the predicate that selects the bare-magnitude hash is `dimensionless` of the base form (what __eq__ uses against numbers); the per-object dimensionality memo read by __eq__/compare is validated against the units; no comparison calls an in-place conversion primitive.'
+EXPLANATION += ' Also decided (round 5, error discipline): __eq__ may answer False for a DimensionalityError of the conversion only where the dimensionalities are known to differ; for equal dimensionalities without a direct conversion (offset vs. delta units) it must compare root-unit magnitudes as the ordering does, otherwise every raise of the registry _convert chain is classified (dimension mismatch / invalid offset combination / same dimension = violation).'
 
 
 # ---------------------------------------------------------------- role-based helpers (also used by C06)
